@@ -64,6 +64,9 @@ pub struct RunOut {
     pub sample: Option<Value>,
     /// The run could not produce a non-trivial case (generator redraw exhausted etc.).
     pub degenerate: bool,
+    /// The run was valid but not exactly repeatable (the baton had to be taken from a thread
+    /// blocked outside the lock model); excluded from the determinism re-check.
+    pub nondet: bool,
 }
 
 impl RunOut {
@@ -87,6 +90,7 @@ pub struct Batch {
     pub violations: Vec<(usize, Violation)>,
     pub samples: Vec<Value>,
     pub degenerate: usize,
+    pub nondet_runs: Vec<bool>,
     pub wall_s: f64,
     /// determinism re-check: (runs executed a second time, runs whose event-log hash differed)
     pub recheck: (usize, usize),
@@ -126,12 +130,14 @@ where
         violations: Vec::new(),
         samples: Vec::new(),
         degenerate: 0,
+        nondet_runs: Vec::with_capacity(n),
         wall_s: 0.0,
         recheck: (0, 0),
     };
     for (i, r) in results.into_iter().enumerate() {
         let r = r.expect("run result missing");
         b.log_hashes.push(r.log_hash);
+        b.nondet_runs.push(r.nondet);
         for (k, v) in r.counters {
             *b.counters.entry(k).or_insert(0) += v;
         }
@@ -164,6 +170,9 @@ where
                 }
                 let i = again[k];
                 let out = f(i, prng::mix(seed, pid, i as u64));
+                if out.nondet || b.nondet_runs[i] {
+                    continue;
+                }
                 if out.log_hash != b.log_hashes[i] {
                     mism.fetch_add(1, Ordering::Relaxed);
                 }
@@ -180,6 +189,7 @@ impl Batch {
         let base = self.runs;
         self.runs += other.runs;
         self.log_hashes.extend(other.log_hashes);
+        self.nondet_runs.extend(other.nondet_runs);
         for (k, v) in other.counters {
             *self.counters.entry(k).or_insert(0) += v;
         }
